@@ -363,7 +363,7 @@ fn main() {
     let header = header_s.as_str();
     let footer = format!("Eval vm_compute in (report_{} cases).", args.prop);
     let prop = args.prop.clone();
-    run_shards(&args, header, "rcase", &footer, |seed, idx| {
+    run_shards(&args, header, if args.prop == "C05" { "rcase2" } else { "rcase" }, &footer, |seed, idx| {
         let mut r = Rng::for_case(seed, idx);
         gen_case(&mut r, &prop, seed, idx)
     });
@@ -394,7 +394,10 @@ fn gen_case(r: &mut Rng, prop: &str, seed: u64, idx: u64) -> Case {
     let probe_id = len[0] - 1;
     let mut sites: Vec<Site> = vec![];
     // ---- base sites ----
-    let pick_sp = |r: &mut Rng| match prop { "C07" => if r.chance(2, 3) { Sp::G } else { Sp::F }, "C08" => if r.chance(2, 3) { Sp::M } else { Sp::F }, _ => match r.below(4) { 0 | 1 => Sp::F, 2 => Sp::G, _ => Sp::M } };
+    // C05: a third of the cases lean towards memories (active data segments follow their memory), a third towards globals
+    let c05_bias = if prop == "C05" { r.below(3) } else { 9 };
+    let pick_sp = |r: &mut Rng| match prop { "C05" if c05_bias == 0 => if r.chance(2, 3) { Sp::M } else { Sp::F }, "C05" if c05_bias == 1 => if r.chance(2, 3) { Sp::G } else { Sp::F },
+                                             "C07" => if r.chance(2, 3) { Sp::G } else { Sp::F }, "C08" => if r.chance(2, 3) { Sp::M } else { Sp::F }, _ => match r.below(4) { 0 | 1 => Sp::F, 2 => Sp::G, _ => Sp::M } };
     // initialiser references (getter globals need an imported global; ref.func globals any function)
     let mut init_owner_ids: Vec<(u64, usize, bool)> = vec![]; // (global id, site, is_getter)
     if nimp[1] > 0 && r.chance(1, 2) {
@@ -436,7 +439,7 @@ fn gen_case(r: &mut Rng, prop: &str, seed: u64, idx: u64) -> Case {
     if noff_globals > 0 && r.chance(1, 3) { sites.push(Site { k: Rk::ElemOff, sp: Sp::G, id: r.below(noff_globals), owner: Owner::None, flavour: 0, flavour2: 0 }); base.elem_off = Some(sites.len() - 1); }
     if r.chance(1, 3) { sites.push(Site { k: Rk::TableInit, sp: Sp::F, id: r.below(len[0]), owner: Owner::None, flavour: 0, flavour2: 0 }); base.table_init = Some(sites.len() - 1); }
     if len[2] > 0 {
-        for _ in 0..r.below(3) {
+        for _ in 0..(if c05_bias == 0 { 1 + r.below(3) } else { r.below(3) }) {
             sites.push(Site { k: Rk::DataMem, sp: Sp::M, id: r.below(len[2]), owner: Owner::None, flavour: 0, flavour2: 0 });
             let nm = sites.len() - 1;
             let noff = if nimp[1] > 0 && r.chance(1, 3) { sites.push(Site { k: Rk::DataOff, sp: Sp::G, id: r.below(nimp[1]), owner: Owner::None, flavour: 0, flavour2: 0 }); Some(sites.len() - 1) } else { None };
@@ -607,15 +610,20 @@ fn gen_case(r: &mut Rng, prop: &str, seed: u64, idx: u64) -> Case {
             let a = module.encode();
             let b = catch_unwind(AssertUnwindSafe(|| module.encode())).ok();
             let same = b.as_deref() == Some(&a[..]);
-            (a, same)
+            (a, same, b)
         }));
         enc.ok()
     }));
-    let enc: Option<(Vec<u8>, bool)> = match res { Ok(x) => x, Err(_) => { api_panic = true; None } };
+    let enc: Option<(Vec<u8>, bool, Option<Vec<u8>>)> = match res { Ok(x) => x, Err(_) => { api_panic = true; None } };
     let live_init = |getter: bool| -> Vec<usize> { init_owner_ids.iter().filter(|(g, _, ig)| *ig == getter && !dead_globals.contains(g)).map(|(_, s, _)| *s).collect() };
     let (dec, valid, same2) = match &enc {
-        Some((out, same)) => (decode(out, &elem_sites, base.start, &live_init(true), &live_init(false), base.elem_off, base.table_init, &base.funcs), validates(out), *same),
+        Some((out, same, _)) => (decode(out, &elem_sites, base.start, &live_init(true), &live_init(false), base.elem_off, base.table_init, &base.funcs), validates(out), *same),
         None => (None, false, true),
+    };
+    // what the SECOND encode() emitted (C05): None = it panicked (or the first one did)
+    let dec2: Option<Option<Dec>> = match &enc {
+        Some((_, _, Some(out2))) => Some(decode(out2, &elem_sites, base.start, &live_init(true), &live_init(false), base.elem_off, base.table_init, &base.funcs)),
+        _ => None,
     };
     let undecodable = enc.is_some() && dec.is_none();
     let l = |v: &Vec<u64>| format!("[{}]", v.iter().map(|x| x.to_string()).collect::<Vec<_>>().join("; "));
@@ -623,6 +631,11 @@ fn gen_case(r: &mut Rng, prop: &str, seed: u64, idx: u64) -> Case {
     let enc_s = match &dec {
         Some(d) => format!("(Some (mkE {} {} {} {} {}))", pairs(&d.imports), l(&d.funcs), l(&d.globals), l(&d.mems), pairs(&d.sites)),
         None => if undecodable { "(Some (mkE [] [] [] [] [(999999, 999999)]))".to_string() } else { "None".to_string() },
+    };
+    let enc2_s = match &dec2 {
+        Some(Some(d)) => format!("(Some (mkE {} {} {} {} {}))", pairs(&d.imports), l(&d.funcs), l(&d.globals), l(&d.mems), pairs(&d.sites)),
+        Some(None) => "(Some (mkE [] [] [] [] [(999999, 999999)]))".to_string(),
+        None => "None".to_string(),
     };
     let sites_s = sites.iter().map(|s| format!("mkSite {} {} {} {}", s.k.coq(), s.sp.coq(), s.id, s.owner.coq())).collect::<Vec<_>>().join("; ");
     let globals_fp: Vec<u64> = base.globals.iter().map(|g| g.0).collect();
@@ -633,6 +646,7 @@ fn gen_case(r: &mut Rng, prop: &str, seed: u64, idx: u64) -> Case {
         rets.iter().map(|x| match x { Some(v) => format!("Some {v}"), None => "None".into() }).collect::<Vec<_>>().join("; "),
         coq_bool(api_panic), enc_s, coq_bool(valid), coq_bool(same2)
     );
+    let coq = if prop == "C05" { format!("mkRC2 ({coq}) {enc2_s}") } else { coq };
     let desc = format!(
         "imports={:?} funcs={:?} globals={:?} mems={:?} base_valid={} hist={:?} rets={:?} sites=[{}] => api_panic={} {} valid={} same2={}",
         base.imports, base.funcs, base.globals, base.mems, base_valid, hist, rets,
